@@ -47,6 +47,15 @@ Pairs(S) == S \X S
 L3(p) == A(p[1], 1) \o ", " \o A(p[2], 2) \o ", " \o A(p[3], 3)
 L2(p) == A(p[1], 1) \o ", " \o A(p[2], 2)
 
+\* ---- RUNS of n consecutive declarations followed by one that READS the k-th of them (group_local_assignment must not merge the
+\* reader into the group; the helper that answers "is one of these names mentioned" sees 1..12 names, in declaration order)
+RunNames == << "width", "height", "depth", "scale", "origin", "label", "color", "alpha", "beta", "gamma", "delta", "omega" >>
+RECURSIVE RunDecls(_, _)
+RunDecls(n, i) == IF i > n THEN "" ELSE "local " \o RunNames[i] \o " = " \o SubSeq("0123456789abc", i + 1, i + 1) \o " " \o RunDecls(n, i + 1)
+UsedRuns == {r \in {<<n, k>> : n \in 1..12, k \in 1..12} : r[2] <= r[1]}
+LongRunShapes == {RunDecls(r[1], 1) \o "local dep = " \o RunNames[r[2]] \o " ext1(dep, " \o RunNames[r[1]] \o ")" : r \in UsedRuns}
+               \cup {RunDecls(r[1], 1) \o "local dep = function() return " \o RunNames[r[2]] \o " end ext1(dep(), " \o RunNames[1] \o ")" : r \in UsedRuns}
+
 \* ---- unused / partly used locals (remove_unused_variable, remove_nil_declaration, group_local_assignment ...)
 UnusedLocals(tier) ==
      {"local a, b, c = " \o L3(p) : p \in Triples(K(tier))}                                  \* all unused
@@ -55,6 +64,7 @@ UnusedLocals(tier) ==
 \cup {"local a, b, c = " \o L2(p) \o ", " \o last : p \in Pairs(K(tier)), last \in {"ext2()", "..."}}  \* multi-value tail
 \cup {"local a = " \o A(k, 1) \o " local b = " \o A(j, 2) \o " ext1(a, b)" : k \in K(tier), j \in K(tier)}
 \cup {"local a, b = " \o A(k, 1) \o " local c, d = " \o A(j, 2) \o ", " \o last \o " ext1(a, b, c, d)" : k \in K(tier), j \in K(tier), last \in {"ext2()", "..."}}
+\cup LongRunShapes
 
 \* ---- calls removed by remove_assertions / remove_debug_profiling, in every call syntax
 RemovedCalls(tier) ==
@@ -209,7 +219,11 @@ Shadow(g, m1, m2, u) == {
   "local " \o g \o " = " \o m1 \o " do local " \o g \o " = " \o m2 \o " end do " \o u \o " end",
   "local o = {} function o:m(" \o g \o ") return 1 end local " \o g \o " = " \o m1 \o " " \o u,
   "local " \o g \o " = " \o m1 \o " local o = {} function o:m(" \o g \o ") return 1 end " \o u,
-  "local " \o g \o " " \o g \o " = " \o m1 \o " " \o u }
+  "local " \o g \o " " \o g \o " = " \o m1 \o " " \o u,
+  \* the caching idiom `local g = g`, re-assigned later
+  "local " \o g \o " = " \o g \o " " \o g \o " = " \o m1 \o " " \o u,
+  "local " \o g \o " = " \o g \o " if ext1(0) then " \o g \o " = " \o m1 \o " end " \o u,
+  "local " \o g \o " = " \o g \o " local function h() " \o g \o " = " \o m1 \o " end h() " \o u }
 \* the HEADER of a generic / numeric for is evaluated OUTSIDE the scope of the loop variables: a watched global used there
 \* is the global even when a loop variable has its name (and the outer local when one shadows it)
 Once == "local function once(a) ext1(\"hdr\", a) return function() return nil end end "
@@ -274,7 +288,8 @@ ShadowShapes(group) ==
 \* remove_empty_do, remove_unused_if_branch, filter_after_early_return and remove_unused_while must keep every last statement.
 BlockWraps == << <<"do ", " end">>, <<"if true then ", " end">>, <<"if ext1(9) then ", " end">>, <<"do do end ", " end">>, <<"if false then ext1(8) else ", " end">> >>
 W(k, x) == BlockWraps[k][1] \o x \o BlockWraps[k][2]
-BlockLeaves == {"return ext1(1)", "return", "ext1(1)", "", "local u = ext1(1)", "do end"}
+\* (a block that only DECLARES something keeps its scope: `local function ext1` / `local ext1` must not reach the code after it)
+BlockLeaves == {"return ext1(1)", "return", "ext1(1)", "", "local u = ext1(1)", "do end", "local function ext1() end", "local ext1 = nil", "local function ext1() end ext1()"}
 NestedBlocks(tier) ==
      {W(i, l) \o " ext1(2) return ext1(3)" : i \in 1..Len(BlockWraps), l \in BlockLeaves}
 \cup {W(i, W(j, l)) \o " ext1(2) return ext1(3)" : i \in 1..Len(BlockWraps), j \in 1..Len(BlockWraps), l \in BlockLeaves}
